@@ -356,3 +356,21 @@ def excluded_by(facts: Iterable[Tuple[ast.AST, bool]], atom: Callable[[ast.AST],
         if v is not None and v != pol:
             return True
     return False
+
+
+def single_value(f: Func, name: str) -> Optional[ast.AST]:
+    """The expression a local is bound to when it is assigned exactly once in f (a named intermediate), else None."""
+    vals = values_of(f, name)
+    return vals[0] if len(vals) == 1 else None
+
+
+def expanded_text(f: Func, e: ast.AST, depth: int = 2) -> str:
+    """Normalised text of e followed by the text of the expressions its single-assignment locals stand for (named booleans, hoisted paths)."""
+    out = [norm(e)]
+    if depth > 0:
+        for x in ast.walk(e):
+            if isinstance(x, ast.Name):
+                v = single_value(f, x.id)
+                if v is not None:
+                    out.append(expanded_text(f, v, depth - 1))
+    return ' '.join(out)
